@@ -155,7 +155,10 @@ AllEqual(s) == \A i, j \in DOMAIN s : s[i] = s[j]
 BuiltTags ==     \* evaluated on the unprimed state (build does not change it)
   If(e.variants # variants, "C12:built-variants-differ-from-builder-state")
   \cup If(~SameButOffsets(ObsDefs, defs), "C12:built-data-differ-from-builder-state")
-  \cup If(SameButOffsets(ObsDefs, defs) /\ ObsDefs # defs, "C03:offset-changed-between-close-and-build")
+  \cup If(\E i \in (DOMAIN defs) \cap (DOMAIN ObsDefs) : defs[i].off # UNSET /\ ObsDefs[i].off # defs[i].off,
+          "C03:offset-of-a-datum-on-the-built-definition-differs-from-its-offset-when-its-variant-was-closed")
+  \cup If(\E i \in DOMAIN defs : i \in VariantIds /\ i \notin DOMAIN ObsDefs,
+          "C03:datum-of-a-closed-variant-missing-from-the-built-definition")
   \cup LayoutTags
   \cup (IF kind # "native" THEN {} ELSE
           If(e.max_size = -1, "C13:capacity-computation-panics")
